@@ -94,6 +94,8 @@ def run(ctx):
     if rep.check(db is not None, 'R3', 'anchor:decision-function', where(oa.body, oa.decision_bb), 'found',
                  'decision function body not available', 'anchor-lost'):
         rep.saw(db)
+        from . import C07 as _c07
+        _c07.OUTCOME[0] = oa.outcome
         table, sx, names, outs = decision_table(f, db, F('+0'))
         for scen, want in (('better', 'must-accept'), ('equal', 'must-accept'), ('worse', 'must-reject'),
                            ('invalid', 'must-reject')):
